@@ -390,14 +390,36 @@ class Sim(Layout):
             if isinstance(v, (str, list, int, float, dict, tuple, bool)) and not isinstance(v, (Sym, Obj)):
                 return isinstance(v, {"str": str, "list": list, "int": int, "float": float, "dict": dict, "tuple": tuple, "bool": bool}[n.args[1].id])
             return False
-        if isinstance(f, ast.Name) and f.id == "accumulate" and len(n.args) == 1 and not n.keywords:
+        if fname == "repeat" and isinstance(f, (ast.Name, ast.Attribute)) and ast.unparse(f) in ("repeat", "itertools.repeat") and len(n.args) in (1, 2) and "repeat" not in env:
+            x = self.ev(n.args[0], env, fi)
+            k = self.ev(n.args[1], env, fi) if len(n.args) == 2 else 64      # an endless repeat is cut off at 64: the scenarios consume a handful
+            if isinstance(k, int):
+                return [x] * k
+        if fname == "accumulate" and isinstance(f, (ast.Name, ast.Attribute)) and ast.unparse(f) in ("accumulate", "itertools.accumulate") and len(n.args) in (1, 2) and "accumulate" not in env:
             v = self.ev(n.args[0], env, fi)
-            if isinstance(v, (list, tuple)):
-                out, acc = [], None
-                for x in v:
-                    acc = x if acc is None else self.binop(ast.Add(), acc, x)
+            v = list(v) if isinstance(v, (list, tuple, range)) else self.iterable(v, n)
+            fn = n.args[1] if len(n.args) == 2 else next((k.value for k in n.keywords if k.arg == "func"), None)
+            opname = ast.unparse(fn).split(".")[-1] if isinstance(fn, (ast.Name, ast.Attribute)) else None
+            ops = {"add": ast.Add(), "mul": ast.Mult(), "sub": ast.Sub(), None: ast.Add()}
+            fv = None if (fn is None or opname in ops) else self.ev(fn, env, fi)
+            init = [k.value for k in n.keywords if k.arg == "initial"]
+            out, acc, started = [], None, False
+            if init:
+                iv = self.ev(init[0], env, fi)
+                if iv is not None:
+                    acc, started = iv, True
                     out.append(acc)
-                return out
+            for x in v:
+                if not started:
+                    acc, started = x, True
+                elif fn is None or opname in ops:
+                    acc = self.binop(ops[opname if fn is not None else None], acc, x)
+                elif isinstance(fv, Closure):
+                    acc = self.call_closure(fv, [acc, x], {})
+                else:
+                    raise LayoutUnknown("accumulate with %s" % ast.unparse(fn))
+                out.append(acc)
+            return out
         if isinstance(f, ast.Name) and f.id == "reversed" and len(n.args) == 1:
             v = self.ev(n.args[0], env, fi)
             if isinstance(v, (list, tuple, range)):
